@@ -699,8 +699,10 @@ def anchor_st(draw: Any) -> Fraction:
 @st.composite
 def tol_st(draw: Any, scale: Fraction) -> tuple[Any, Any]:
     """(rel, abs) as float-repr strings or None; abs mostly comparable with rel*scale."""
-    rk = draw(st.sampled_from(["none", "none", "val", "val", "val"]))
+    rk = draw(st.sampled_from(["none", "none", "val", "val", "val", "val", "val", "zero"]))
     rel = None
+    if rk == "zero":
+        rel = "0.0"  # an explicitly stated zero relative tolerance (exact match, or the absolute tolerance alone)
     if rk == "val":
         rel = repr(float(min(Fraction(draw(st.integers(1, 9))) * Fraction(10)**draw(st.integers(-6, -1)), Fraction(3, 10))))
     ak = draw(st.sampled_from(["none", "none", "none", "near", "near", "free"]))
@@ -798,6 +800,14 @@ def value_pair(draw: Any, mass_exp: int, allow_complex: bool = True) -> dict[str
         assert a_im is not None
         kk = k if pert == "im" else k * Fraction(draw(st.integers(1, 10)), 10)  # second part at most as far
         b_im = _perturb(a_im, a_re, rel, ab, mass_exp, target, kk, away)
+    if rel_s == "0.0" and kind not in ("equal", "negated"):
+        # every tolerance-relative perturbation vanishes with rel = 0: perturb by a small fixed fraction instead (inside the
+        # library's DEFAULT relative tolerance, so that a silently substituted default would accept the pair)
+        frac = Fraction(1, draw(st.sampled_from([2000, 5000, 20000])))
+        step = abs(a_re) * frac
+        if ab is not None and step <= ab * 2:
+            step = ab * 3
+        b_re, b_im, pert, target = a_re + step, a_im, "re", "F"
     return {"a": (a_re, a_im), "b": (b_re, b_im), "rel": rel_s, "abs": abs_s, "pert": pert, "target": {"equal": "E", "negated": "N"}.get(kind, target),
         "side": side if kind == "edge" else {"far": "++", "far-in": "--"}.get(kind, ""),
         "anchor_lhs": draw(st.booleans())}
@@ -1090,7 +1100,42 @@ def judge_fexp(case: dict[str, Any]) -> tuple[list[tuple[str, str]], list[str], 
     return [], labels, True
 
 
+def _is_inf(x: Any) -> bool:
+    if isinstance(x, dict):
+        return any(_is_inf(v) for v in x.values())
+    if isinstance(x, (list, tuple)):
+        return (len(x) == 2 and x[0] == "inf") or any(_is_inf(v) for v in x)
+    return False
+
+
+def _has_float(x: Any) -> bool:
+    if isinstance(x, dict):
+        return any(_has_float(v) for v in x.values())
+    if isinstance(x, (list, tuple)):
+        return (len(x) == 2 and x[0] == "float") or any(_has_float(v) for v in x)
+    return False
+
+
+def _inexact_units(x: Any) -> bool:
+    if isinstance(x, dict):
+        if "unit" in x and isinstance(x["unit"], list):
+            try:
+                if not UX.is_exact(x["unit"]):
+                    return True
+            except Exception:  # pylint: disable=broad-except
+                return True
+        return any(_inexact_units(v) for v in x.values())
+    if isinstance(x, (list, tuple)):
+        return any(_inexact_units(v) for v in x)
+    return False
+
+
 def judge(case: dict[str, Any], excluded: frozenset[str] = frozenset()) -> tuple[list[tuple[str, str]], list[str], bool]:
+    if case.get("rel") is not None and float(case["rel"]) == 0.0 and case.get("kind") in ("pair", "vector", "numbers") and \
+            not any(_is_inf(v) for v in (case,)) and (_has_float(case) or _inexact_units(case)):
+        # a stated ZERO relative tolerance asks for exact agreement: with float operands or float unit factors the verdict
+        # hinges on the last bit of a double-precision product, which the property does not pin down
+        return [], [case["kind"], "zero-relative-tolerance-with-floats:unjudged"], False
     extra = []
     if KEY_FZ in excluded:
         case, changed = _strip_float_zero(case)
